@@ -18,7 +18,7 @@ use tracing::warn;
 
 use super::version_manager::EpochOp;
 use super::{SecondaryStorage, SecondaryTable, StorageResult, TracedStorageError};
-use crate::catalog::{ColumnCatalog, ColumnId, SchemaId, TableRefId};
+use crate::catalog::{ColumnCatalog, ColumnId, SchemaId, TableId, TableRefId};
 
 #[derive(Clone, Debug, Serialize, Deserialize)]
 pub struct CreateTableEntry {
@@ -26,6 +26,10 @@ pub struct CreateTableEntry {
     pub table_name: String,
     pub column_descs: Vec<ColumnCatalog>,
     pub ordered_pk_ids: Vec<ColumnId>,
+    /// The id of the table. Views and indexes are not logged but draw ids from the same
+    /// sequence, so replaying the logged tables in order does not always reproduce it.
+    #[serde(default)]
+    pub table_id: Option<TableId>,
 }
 
 #[derive(Clone, Debug, Serialize, Deserialize)]
@@ -208,6 +212,7 @@ impl SecondaryStorage {
             table_name,
             column_descs,
             ordered_pk_ids,
+            table_id: logged_table_id,
         } = entry.clone();
 
         let schema = self
@@ -216,6 +221,10 @@ impl SecondaryStorage {
             .ok_or_else(|| TracedStorageError::not_found("schema", schema_id))?;
         if schema.get_table_by_name(&table_name).is_some() {
             return Err(TracedStorageError::duplicated("table", table_name));
+        }
+        if let Some(id) = logged_table_id {
+            // skip the ids that unlogged objects (views, indexes) had taken
+            self.catalog.advance_next_id(schema_id, id);
         }
         let table_id = self
             .catalog
@@ -258,6 +267,7 @@ impl SecondaryStorage {
             table_name: table_name.to_string(),
             column_descs: column_descs.to_vec(),
             ordered_pk_ids: ordered_pk_ids.to_vec(),
+            table_id: Some(self.catalog.next_id(schema_id)),
         };
 
         // persist to manifest first
